@@ -1,8 +1,10 @@
 #!/bin/sh
-# runs every thorough check once and prints one summary line per property (used with `vp run`)
+# usage: tools/run_thorough_all.sh [ID...]
+# runs every (or the given) thorough check once and prints one summary line per property (used with `vp run`)
 cd "$(dirname "$0")/.."
 ./setup.sh >/dev/null 2>&1
-for id in $(./bin/verif list); do
+ids="$*"; [ -z "$ids" ] && ids=$(./bin/verif list)
+for id in $ids; do
   s=$(date +%s)
   out=$(./bin/verif check $id --tier thorough 2>&1); code=$?
   e=$(date +%s)
